@@ -3,13 +3,13 @@ package main
 func init() {
 	checks["C11"] = &checkDef{
 		Level:       levelMC,
-		Explanation: "Real pipe.DoCache on MGET (doCacheMGet: per-key Flight, rewritten MGET of the missed keys inside OPTIN/MULTI/PTTL…/EXEC, refill of the positional result) and pipe.DoMultiCache (lru.Flights, per-command CSC transactions), together with the reader's commit branches and the real lru store, over an in-memory connection with a scripted server whose value of key k is k:generation. Each of three keys is already cached or not (by a preceding DoCache), the batch has 2..3 keys drawn with repetition (duplicates inside one batch), ring or flow-buffer queue. Oracle: element / result i is the server's value of key i. The multi-key helpers on top (MGetCache, JsonMGetCache) are C31's check; VerifC11_mux drives the real mux.DoMultiCache (PipelineMultiplex=2: four connections, batching by slot&mask, index maps, parallel refill) over stub wires that echo the key: every batch of 2..4 commands over six keys. Cluster nodes (clusterClient.DoMultiCache) are exercised under C19/C20's harnesses only for routing, not for positions.",
+		Explanation: "Real pipe.DoCache on MGET (doCacheMGet: per-key Flight, rewritten MGET of the missed keys inside OPTIN/MULTI/PTTL…/EXEC, refill of the positional result) and pipe.DoMultiCache (lru.Flights, per-command CSC transactions), together with the reader's commit branches and the real lru store, over an in-memory connection with a scripted server whose value of key k is k:generation. Each of three keys is already cached or not (by a preceding DoCache), the batch has 2..3 keys drawn with repetition (duplicates inside one batch), ring or flow-buffer queue. Optionally another caller already owns an in-flight request for one uncached key and that request fails while DoMultiCache waits for it (the waiting position must carry that failure, all other positions their own replies). Oracle: element / result i is the server's value of key i. The multi-key helpers on top (MGetCache, JsonMGetCache) are C31's check; VerifC11_mux drives the real mux.DoMultiCache (PipelineMultiplex=2: four connections, batching by slot&mask, index maps, parallel refill) over stub wires that echo the key: every batch of 2..4 commands over six keys. Cluster nodes (clusterClient.DoMultiCache) are exercised under C19/C20's harnesses only for routing, not for positions.",
 		Assumptions: []string{"delay bound 0 (sequential caller, server goroutine); an honest server"},
 		Trusted:     []string{"scripted CSC server, verifConn"},
-		Outside:     []string{"entries in flight owned by another concurrent caller during the batch", "JSON.MGET, cluster DoMultiCache positions", "mux sub-batch results that are transport errors (wire replacement)"},
+		Outside:     []string{"a foreign in-flight request that succeeds (only its failure is modelled); foreign requests during the MGET path", "JSON.MGET, cluster DoMultiCache positions", "mux sub-batch results that are transport errors (wire replacement)"},
 		Bounds:      map[string]any{"quick": "3 keys × cached/not, batches of 2..3 keys with repetition, MGET and DoMultiCache", "thorough": "batches of 2..4 keys; mux batches of 2..5"},
 		specs: func(tier string) []specRef {
-			return []specRef{hsd(rootPkg, "VerifC11_batch", P{"max_keys": q(tier, int64(3), 4)}, 0, 3000000, 3000, "mget", "multicache"),
+			return []specRef{hsd(rootPkg, "VerifC11_batch", P{"max_keys": q(tier, int64(3), 4)}, 0, 3000000, 3000, "mget", "multicache", "foreignfailed"),
 				hsd(rootPkg, "VerifC11_mux", P{"max_keys": q(tier, int64(4), 5)}, 0, 3000000, 3000, "muxmulticache")}
 		},
 	}
